@@ -4,6 +4,9 @@ L = 'prysm/polynomials/laguerre.py'
 DK = 'prysm/polynomials/dickson.py'
 CH = 'prysm/polynomials/cheby.py'
 XY = 'prysm/polynomials/xy.py'
+ZK = 'prysm/polynomials/zernike.py'
+XY = 'prysm/polynomials/xy.py'
+QP = 'prysm/polynomials/qpoly.py'
 CATALOGUE = [
     ('mutant', CH, "    cs = 1/jacobi_seq(ns, -.5, -.5, np.ones(1, dtype=x.dtype))\n    seq = jacobi_seq(ns, -.5, -.5, x)\n    # one constant per order: broadcast along axis 0 only, whatever the rank of x\n    return seq*cs.reshape((-1, *[1]*x.ndim))",
      "    cs = 1/jacobi_seq(ns, -.5, -.5, np.ones(1, dtype=x.dtype))\n    seq = jacobi_seq(ns, -.5, -.5, x)\n    return seq*cs", 'C08.shape', 'cheby1_seq (K,1) broadcast (pinned defect)'),
@@ -22,4 +25,24 @@ CATALOGUE = [
     ('variant', J, "    if ns[min_i] == 2:\n        out[min_i] = Pn\n        min_i += 1\n\n    if min_i == len(ns):\n        return out\n\n    max_n = ns[-1]", "    if ns[min_i] == 2:\n        out[min_i] = (A * x + B) * Pnm1 - C\n        min_i = min_i + 1\n\n    if min_i == len(ns):\n        return out\n\n    max_n = ns[-1]", '', 'order-2 slot recomputed inline'),
     ('variant', CH, "    cs = (ns+1)/np.squeeze(jacobi_seq(ns, .5, .5, np.ones(1, dtype=x.dtype)))\n    seq = jacobi_seq(ns, .5, .5, x)\n    # one constant per order: broadcast along axis 0 only, whatever the rank of x\n    return seq*cs.reshape((-1, *[1]*x.ndim))",
      "    cs = (ns+1)/np.squeeze(jacobi_seq(ns, .5, .5, np.ones(1, dtype=x.dtype)))\n    seq = jacobi_seq(ns, .5, .5, x)\n    cs = cs.reshape((-1, *[1]*x.ndim))\n    return cs*seq", '', 'cheby2_seq reshaped in two steps'),
+    ('variant', ZK, '            zern = jac * azpiece * radialpiece  # jac already contains the norm\n', '            zern = jac * azpiece  # jac already contains the norm\n            zern *= radialpiece\n', '', 'zernike: in-place multiply on a fresh product'),
+    ('mutant', ZK, '            radialpiece = powers_of_m[absm]\n            zern = jac * azpiece * radialpiece  # jac already contains the norm\n', '            radialpiece = powers_of_m[absm]\n            radialpiece *= azpiece\n            zern = jac * radialpiece  # jac already contains the norm\n', 'C08.shared', 'zernike: shared r**|m| table overwritten'),
+    ('mutant', XY, '    if cartesian_grid and x.ndim > 1:\n        x, y = optimize_xy_separable(x, y)\n\n    ms = ', '    if cartesian_grid and x.ndim > 1:\n        x, _ = optimize_xy_separable(x, y)\n\n    ms = ', 'C08.shape2', 'xy_seq: y left as a full grid'),
+    # table laws / Q sequences
+    ('mutant', ZK, '        jacobi_seqs_mjn[k] = truenp.arange(nj+1)\n', '        jacobi_seqs_mjn[k] = truenp.arange(1, nj+2)\n', 'C08.table2', 'zernike: Jacobi order list starts at 1'),
+    ('mutant', ZK, '        jacobi_seqs[k] = list(jacobi_seq(n_jac, 0, k, x))\n', '        jacobi_seqs[k] = list(jacobi_seq(n_jac, k, 0, x))\n', 'C08.table2', 'zernike: table built with (alpha, beta) swapped'),
+    ('mutant', ZK, '        nj = (n-absm) // 2\n        jac = jacobi_seqs[absm][nj]\n', '        nj = (n-absm) // 2\n        jac = jacobi_seqs[absm][nj-1]\n', 'C08.table2', 'zernike: radial index off by one'),
+    ('mutant', ZK, '            if m < 0:\n                azpiece = sines[absm]\n            else:\n                azpiece = cosines[absm]\n', '            if m > 0:\n                azpiece = sines[absm]\n            else:\n                azpiece = cosines[absm]\n', 'C08.table2', 'zernike seq: sine/cosine assignment swapped'),
+    ('mutant', ZK, '        sines[m] = np.sin(m*t)\n', '        sines[m] = np.sin(t)\n', 'C08.table2', 'zernike: sine table ignores m'),
+    ('variant', ZK, '            jac = jac * zernike_norm(n, m)\n', '            jac = jac * zernike_norm(n, absm)\n', '', 'zernike seq: norm taken at |m| (same value: the norm depends on m only through m == 0)'),
+    ('mutant', QP, '    if ns[min_i] == 1:\n        out[min_i] = 1 / np.sqrt(19) * (13 - 16 * rho) * c_Q\n', '    if ns[min_i] == 1:\n        out[min_i] = 1 / np.sqrt(19) * (13 - 16 * rho)\n', 'C08.qseq', 'Qbfs_seq: order 1 without c_Q'),
+    ('mutant', QP, '        if ns[min_i] == nn:\n            out[min_i] = Qn * c_Q\n', '        if ns[min_i] == nn:\n            out[min_i] = Qnm2 * c_Q\n', 'C08.qseq', 'Qbfs_seq: emits the previous order'),
+    ('mutant', QP, '    Pns = jacobi_seq(ns, 0, 4, xx)\n', '    Pns = jacobi_seq(ns, 0, 2, xx)\n', 'C08.qseq', 'Qcon_seq: beta = 2'),
+    ('mutant', QP, '            seqs[m] = list(Qbfs_seq(range(N+1), r))\n', '            seqs[m] = list(Qbfs_seq(range(1, N+1), r))\n', 'C08.qseq', 'Q2d_seq: m=0 table starts at order 1'),
+    ('mutant', QP, '                Qn = (Pn - gnm1 * Qnm1) * (1/fn)\n                seqs[m].append(Qn)\n', '                Qn = (Pn - gnm1 * Qnm1) * (1/fn)\n                seqs[m].append(Qnm1)\n', 'C08.qseq', 'Q2d_seq: table sweep appends the previous Q'),
+    ('mutant', QP, '                prefix = sin_scales[-m] * u_scales[-m]\n', '                prefix = sin_scales[-m] * u_scales[m]\n', 'C08', 'Q2d_seq: radial scale looked up with negative key', 'exit2-ok'),
+    ('mutant', QP, '            out[j] = seqs[abs(m)][n] * prefix\n', '            out[j] = seqs[abs(m)][n-1] * prefix\n', 'C08.qseq', 'Q2d_seq: order index off by one'),
+    ('mutant', QP, '                seqs[m].append(Q2)\n                seqs[m].append(Q3)\n', '                seqs[m].append(Q3)\n                seqs[m].append(Q2)\n', 'C08.qseq', 'Q2d_seq: Q2 and Q3 appended in the wrong order'),
+    ('variant', QP, '        if ns[min_i] == nn:\n            out[min_i] = Qn * c_Q\n', '        if ns[min_i] == nn:\n            out[min_i] = c_Q * Qnm1\n', '', 'Qbfs_seq: emits the rotated name (same value)'),
+    ('variant', ZK, '            zern = jac * azpiece * radialpiece  # jac already contains the norm\n            out[k] = zern\n', '            out[k] = radialpiece * (azpiece * jac)\n', '', 'zernike seq: product reordered'),
 ]
